@@ -3,6 +3,9 @@ pdbdriver: line-protocol driver over the executable model.  One output line per 
 See /verif/DESIGN.md section 4 (T1) and harness/src for the protocol.
 -/
 import Pdb.Model.Pipeline
+import Pdb.Model.IndexPage
+import Pdb.Model.Meta
+import Pdb.Model.Wal
 
 open Pdb
 
@@ -89,6 +92,9 @@ def stepLine (s : State) (line : String) : State × String :=
     match s.p1 with
     | some p => let (p', out) := p1Step p rest; ({ s with p1 := some p' }, out)
     | none => (s, "bad-op")
+  | "c19" :: rest => (s, Pdb.IndexPage.driverLine rest)
+  | "c17" :: rest => (s, Pdb.C17.driverLine rest)
+  | "c13" :: rest => (s, Pdb.Wal.driverLine rest)
   | [] => (s, "")
   | _ => (s, "bad-op")
 
